@@ -100,6 +100,28 @@ static void fslog2(const char *op, const char *a, const char *b, long ret) {
 }
 
 // ------------------------------------------------------------------ fd level
+static char *__real_getcwd_safe(char *b, size_t n) { return getcwd(b, n); }
+// where did the kernel really open this?  A symbolic link inside the mudlib can lead out of it although every path string
+// the driver uses looks confined.
+static void check_real(const char *op, const char *path, int fd) {
+  if (!S.fs_log || fd < 0) return;
+  static std::string root;
+  if (root.empty()) { char r[4096]; if (__real_getcwd_safe(r, sizeof r)) root = r; }
+  char lnk[64], real[4096];
+  snprintf(lnk, sizeof lnk, "/proc/self/fd/%d", fd);
+  ssize_t n = readlink(lnk, real, sizeof real - 1);
+  if (n <= 0 || root.empty()) return;
+  real[n] = 0;
+  if (strncmp(real, root.c_str(), root.size()) != 0 || (real[root.size()] != '/' && real[root.size()] != 0))
+  {
+    // the event text must not name the scratch directory (it carries the process id)
+    std::string r2 = real;
+    if (!S.root.empty() && r2.compare(0, S.root.size(), S.root) == 0) r2 = "<scratch>" + r2.substr(S.root.size());
+    else r2 = "<outside the scratch directory>";
+    ev("fs_escape %s %s real=%s", op, pct_enc(path ? path : "").c_str(), pct_enc(r2).c_str());
+  }
+}
+
 extern "C" int __wrap_open(const char *path, int flags, ...) {
   mode_t mode = 0;
   if (flags & O_CREAT) { va_list ap; va_start(ap, flags); mode = (mode_t)va_arg(ap, int); va_end(ap); }
@@ -108,6 +130,7 @@ extern "C" int __wrap_open(const char *path, int flags, ...) {
   if (w && mutating("open", path)) { fslog("open_w", path, -1); return -1; }
   int fd = __real_open(path, flags, mode);
   fslog(w ? "open_w" : "open_r", path, fd);
+  check_real(w ? "open_w" : "open_r", path, fd);
   if (fd >= 0) { fdpath[fd] = norm(path); if (w) touch(norm(path)); }
   return fd;
 }
@@ -184,6 +207,7 @@ extern "C" FILE *__wrap_fopen(const char *path, const char *mode) {
   if (w && mutating("fopen", path)) { fslog("fopen_w", path, -1); return NULL; }
   int fd = __real_open(path, flags, 0644);
   fslog(w ? "fopen_w" : "fopen_r", path, fd);
+  check_real(w ? "fopen_w" : "fopen_r", path, fd);
   if (fd < 0) return NULL;
   fdpath[fd] = norm(path);
   if (w) touch(norm(path));
